@@ -23,6 +23,12 @@ func (o *ordOracle) Cmp(a, b pred.Val) (int, bool) {
 	if v, ok := o.ord[kb+"|"+ka]; ok {
 		return -v, true
 	}
+	// x == "" is the emptiness test len(x) == 0 in another spelling
+	if kb == `""` {
+		if v, ok := o.ord["len("+ka+")|0"]; ok {
+			return v, true
+		}
+	}
 	return 0, false
 }
 
